@@ -998,6 +998,19 @@ def copyser(F, R):
                             x = f.nodes[d]
                             if x and x['k'] == 'ctor' and x.get('pc') == 'copy_helper': rewire = True
             R.ob('C15.fields', rewire, {'func': f.q, 'rewires_states': rewire})
+            # ... and AFTER the raw copy of the substate list (the copied states still carry the source's back-pointers)
+            order = f.linear_nodes()
+            rw = [i for i, n in f.calls() if n.get('n') == 'for_each' and any(f.nodes[d] and f.nodes[d]['k'] == 'ctor' and f.nodes[d].get('pc') == 'copy_helper' for a in n['args'] for d in dependency_closure(f, a))]
+            raw = [i for i in order if f.nodes[i] and ((f.nodes[i]['k'] == 'asg' and f.base_member(f.nodes[i]['lhs']) == 'm_substate_list') or (f.nodes[i]['k'] == 'call' and f.nodes[i].get('op') == '=' and f.nodes[i].get('obj') and f.base_member(f.nodes[i]['obj']) == 'm_substate_list'))]
+            if rw and raw:
+                ok_o = all(order.index(x) > order.index(y) for x in rw for y in raw if x in order)
+                R.ob('C15.fields', ok_o, {'func': f.q, 'rewire_after_raw_copy': ok_o})
+                if not ok_o: R.find('C15.fields', f, 'rewire-before-copy', 'do_copy re-binds the states to the new machine before it overwrites them with the source\'s states: the copy\'s states keep the source\'s back-pointers (sm_ptr states, visitors)', where=f.at(rw[0]))
+            # members that are re-established by wiring must not be taken from the source
+            for x in sorted(w & set(COPY_EXEMPT)):
+                if x == 'm_visitors': continue
+                R.ob('C15.fields', False, {'func': f.q, 'copied_but_rebuilt': x})
+                R.find('C15.fields', f, 'copied:' + x, 'do_copy takes %s from the source machine (%s): the copy\'s nested machines then point at the original\'s container' % (x, COPY_EXEMPT[x]))
             if not rewire: R.find('C15.fields', f, 'no-rewire', 'do_copy does not re-bind the copied states (visitors, back-pointers) to the new machine')
         if f.n == 'serialize':
             R.seen(f); R.anchor('serialize:' + be)
@@ -1304,6 +1317,21 @@ def copyspecial(F, R):
                     while b and b['k'] == 'mem' and f.nodes[b['b']] and f.nodes[b['b']]['k'] == 'mem': b = f.nodes[b['b']]
                     if b and b['k'] == 'mem' and f.nodes[b['b']] and f.nodes[b['b']]['k'] == 'this': written.add(ch[0])
         missing = [fd['n'] for fd in rec['fields'] if fd['n'] and fd['n'] not in written and fd['n'] not in ex]
+        # a hand-written assignment must also assign the base-class part (for exit_pt<ExitPoint> that is the user's pseudo-state
+        # class with whatever data it holds); the compiler does this only for a defaulted operator
+        if sp == 'copy_assign' and rec['bases']:
+            assigned_bases = set()
+            for i, n in f.calls():
+                if n.get('op') == '=' or n.get('n') == 'operator=':
+                    o = f.nodes[n['obj']] if n.get('obj') else None
+                    while o and o['k'] in ('icast', 'cast', 'paren'): o = f.nodes[o['e']]
+                    if o and (o['k'] == 'this' or (o['k'] == 'un' and o.get('op') == '*')): assigned_bases.add(strip_cvref(F.strs[n['pt']]) if 'pt' in n else '?')
+            for b in rec['bases']:
+                bt = strip_cvref(F.strs[b['t']])
+                okb = bt in assigned_bases
+                R.ob('C15.fields', okb, {'func': f.q, 'base': Facts.short(bt, 60), 'assigned': okb})
+                if not okb:
+                    R.find('C15.fields', f, 'user-copy-base', 'the user-provided copy assignment of %s does not assign its base class part: data members of the base (for exit_pt: of the user\'s exit pseudo state) keep their old values in the assigned-to object' % f.cls, instance=Facts.short(bt, 120))
         R.ob('C15.fields', not missing, {'func': f.q, 'fields': [fd['n'] for fd in rec['fields']], 'copied': sorted(written)})
         if missing:
             R.find('C15.fields', f, 'user-copy-missing:' + ','.join(missing), 'the user-provided %s of %s does not copy data member(s) %s' % ('copy constructor' if sp == 'copy_ctor' else 'copy assignment', f.cls, missing))
